@@ -1101,7 +1101,9 @@ func (g *gate) Read(p []byte) (int, error) {
 	}
 	if r.want.ScreenCheck && wantObs && wt.Obs != nil && wt.Obs.Kind == "main" {
 		w.mu.Lock()
-		relaxed := wt.Obs.Hint != "" || wt.Obs.Local == "menu-select" || wt.Obs.Local == "isearch"
+		// (a keyboard macro being recorded shows a persistent hint, a pending numeric argument shows
+		// "(arg: n)": Hint.Text() reports neither)
+		relaxed := wt.Obs.Hint != "" || wt.Obs.MacroRec || wt.Obs.IterSet || wt.Obs.Local == "menu-select" || wt.Obs.Local == "isearch"
 		// with history-autosuggest on, the line is displayed followed by the (dimmed) rest of the most
 		// recent history entry it is a prefix of: that is what must be on the screen
 		shown := []rune(wt.Obs.Line)
